@@ -158,6 +158,7 @@ struct View {
     nmsgs: usize,
     ro: Vec<(u64, u64)>,      // read requests registered by the leader: (request id, read index)
     rstates: Vec<(u64, u64)>, // read states not yet handed out: (request id, index)
+    transferee: Option<u64>,
 }
 
 /// numeric id of a read request context ("r<N>")
@@ -200,9 +201,13 @@ pub struct Params {
     pub emit_p: bool,
     pub verbose: bool,
     pub shape: Option<(usize, usize)>,
+    pub lockstep: bool,
+    pub stabilise: bool,
 }
 
 pub struct Sim {
+    transfer_ticks: HashMap<u64, u64>, // leader id -> ticks seen with the same pending transfer
+    cur_what: String,                   // description of the library call being made
     pub nodes: Vec<Node>,
     net: Vec<Message>,
     rng: Rng,
@@ -318,6 +323,12 @@ impl Sim {
             max_uncommitted_size: if max_size_per_msg == u64::MAX || rng.chance(60) { u64::MAX } else { max_size_per_msg + rng.below(200) },
             ..Default::default()
         };
+        let mut base = base;
+        if params.lockstep {
+            // C16's setting: pre-vote and check-quorum on all nodes
+            base.check_quorum = true;
+            base.pre_vote = true;
+        }
         let async_mode = rng.chance(60);
         let logger = Logger::root(Discard, o!());
         let mut nodes = vec![];
@@ -352,7 +363,7 @@ impl Sim {
             p_end_reason: String::new(), violations: vec![], stats: BTreeMap::new(), step_no: 0, params, async_mode,
             next_payload: 1, leaders: HashMap::new(), committed: BTreeMap::new(), leader_committed: BTreeMap::new(), leader_committed_in: BTreeMap::new(), ref_app: BTreeMap::new(),
             released_as_leader: HashMap::new(), reads: HashMap::new(), max_commit: 0, seen_commit: HashMap::new(),
-            last_conf: HashMap::new(),
+            last_conf: HashMap::new(), transfer_ticks: HashMap::new(), cur_what: String::new(),
         };
         if sim.p_active {
             sim.ptrace.push(format!("p new {} -> ok", sim.params.seed));
@@ -414,7 +425,7 @@ impl Sim {
         let mut ro: Vec<(u64, u64)> = r.read_only.pending_read_index.iter().map(|(c, st)| (rid_of(c), st.index)).collect();
         ro.sort();
         let rstates = r.read_states.iter().map(|rs| (rid_of(&rs.request_ctx), rs.index)).collect();
-        Some(View { term: r.term, vote: r.vote, state: r.state, commit: r.raft_log.committed, first, entries, nmsgs: r.msgs.len(), ro, rstates })
+        Some(View { term: r.term, vote: r.vote, state: r.state, commit: r.raft_log.committed, first, entries, nmsgs: r.msgs.len(), ro, rstates, transferee: r.lead_transferee })
     }
 
     fn pview(&mut self, i: usize) {
@@ -461,6 +472,7 @@ impl Sim {
         let Some(post) = self.view(i) else { return };
         let gen: Vec<Message> = self.nodes[i].rn.as_ref().unwrap().raft.msgs[pre.nmsgs.min(post.nmsgs)..].to_vec();
         let conf = self.nodes[i].rn.as_ref().unwrap().raft.prs().conf().to_conf_state();
+        self.monitor_c16_c17(i, pre, &post, input, &gen);
         // a deferred (not yet effective) leader that leaves leadership: outside P's fragment
         if self.nodes[i].deferred.is_some() && (post.state != StateRole::Leader || post.term != pre.term) {
             self.p_end("a leader whose self-vote was not yet durable left leadership");
@@ -743,6 +755,84 @@ impl Sim {
         }
     }
 
+    /// node-level monitors of C16 (pre-vote / term discipline) and C17 (leadership transfer), evaluated on
+    /// exactly the call that did it
+    fn monitor_c16_c17(&mut self, i: usize, pre: &View, post: &View, input: Option<&Message>, gen: &[Message]) {
+        let id = self.nodes[i].id;
+        let what = self.cur_what.clone();
+        let pre_vote = self.nodes[i].cfg.pre_vote;
+        let election_tick = self.nodes[i].cfg.election_tick as u64;
+        // ---- C16
+        if let Some(m) = input {
+            if m.get_msg_type() == MessageType::MsgRequestPreVote && (post.term != pre.term || post.vote != pre.vote) {
+                self.violate("C16", format!("n{} changed (term, vote) from ({}, {}) to ({}, {}) while handling a pre-vote request of n{} for term {}", id, pre.term, pre.vote, post.term, post.vote, m.from, m.term));
+            }
+        }
+        if post.term > pre.term {
+            let told = input.map_or(false, |m| {
+                m.term == post.term
+                    && m.get_msg_type() != MessageType::MsgRequestPreVote
+                    && !(m.get_msg_type() == MessageType::MsgRequestPreVoteResponse && !m.reject)
+            });
+            let alone = {
+                let r = &self.nodes[i].rn.as_ref().unwrap().raft;
+                let c = r.prs().conf().to_conf_state();
+                let ok_half = |h: &[u64]| h.is_empty() || (h.len() == 1 && h[0] == id);
+                ok_half(c.get_voters()) && ok_half(c.get_voters_outgoing())
+            };
+            let campaigned = post.term == pre.term + 1 && (post.state == StateRole::Candidate || post.state == StateRole::Leader);
+            let won_prevote = pre.state == StateRole::PreCandidate
+                && input.map_or(false, |m| m.get_msg_type() == MessageType::MsgRequestPreVoteResponse && !m.reject);
+            let forced = input.map_or(false, |m| m.get_msg_type() == MessageType::MsgTimeoutNow);
+            let explained = told || (campaigned && (!pre_vote || won_prevote || forced || alone));
+            if !explained {
+                self.violate("C16", format!("n{} raised its term from {} to {} ({:?} -> {:?}) without being told of that term and without a won pre-vote (call: {}, input {:?})", id, pre.term, post.term, pre.state, post.state, what, input.map(|m| (m.get_msg_type(), m.from, m.term, m.reject))));
+            }
+        }
+        // ---- C17
+        for g in gen.iter().filter(|g| g.get_msg_type() == MessageType::MsgTimeoutNow) {
+            let r = &self.nodes[i].rn.as_ref().unwrap().raft;
+            let matched = r.prs().get(g.to).map(|p| p.matched).unwrap_or(0);
+            let last = r.raft_log.last_index();
+            if matched != last {
+                self.violate("C17", format!("leader n{} told n{} to campaign at once although it has acknowledged index {} of the leader's log (last index {})", id, g.to, matched, last));
+            }
+        }
+        let pre_last = pre.first + pre.entries.len() as u64 - 1;
+        let post_last = post.first + post.entries.len() as u64 - 1;
+        let proposing = what.starts_with("propose") || input.map_or(false, |m| m.get_msg_type() == MessageType::MsgPropose);
+        if proposing && pre.state == StateRole::Leader && pre.transferee.is_some() && post.state == StateRole::Leader && post.term == pre.term && post_last > pre_last {
+            self.violate("C17", format!("leader n{} accepted a proposal (last index {} -> {}) while a transfer to n{} is pending", id, pre_last, post_last, pre.transferee.unwrap()));
+        }
+        if post.state == StateRole::Leader && post.transferee.is_some() && post.transferee == pre.transferee && post.term == pre.term {
+            if what == "tick" {
+                let c = self.transfer_ticks.entry(id).or_insert(0);
+                *c += 1;
+                if *c > election_tick {
+                    let c = *c;
+                    self.violate("C17", format!("leader n{} still has a transfer to n{} pending after {} ticks (election timeout {})", id, post.transferee.unwrap(), c, election_tick));
+                }
+            }
+        } else {
+            self.transfer_ticks.remove(&id);
+        }
+        if post.state != StateRole::Leader && post.transferee.is_some() {
+            self.violate("C17", format!("n{} is {:?} but still records a pending transfer to n{}", id, post.state, post.transferee.unwrap()));
+        }
+        if let Some(t) = what.strip_prefix("transfer_leader ").and_then(|x| x.parse::<u64>().ok()) {
+            if input.is_none() && pre.state == StateRole::Leader {
+                let r = &self.nodes[i].rn.as_ref().unwrap().raft;
+                let is_voter = r.prs().conf().voters().contains(t);
+                if !is_voter && (post.transferee != pre.transferee || gen.iter().any(|g| g.get_msg_type() == MessageType::MsgTimeoutNow)) {
+                    self.violate("C17", format!("leader n{} acted on a transfer request naming n{}, which is not a voter (transferee {:?} -> {:?})", id, t, pre.transferee, post.transferee));
+                }
+                if t == id && !(post.transferee.is_none() || post.transferee == pre.transferee) {
+                    self.violate("C17", format!("leader n{} started a transfer to itself", id));
+                }
+            }
+        }
+    }
+
     /// generation-time events of leader messages and of commit evidence
     fn emit_generated(&mut self, i: usize, gen: &[Message]) {
         let id = self.nodes[i].id;
@@ -768,6 +858,7 @@ impl Sim {
             self.log(desc.clone());
         }
         let pre = self.view(i)?;
+        self.cur_what = what.to_string();
         let seed = self.params.seed;
         let rn = self.nodes[i].rn.as_mut()?;
         let queued: Vec<Message> = rn.raft.msgs.clone();
@@ -1272,7 +1363,7 @@ impl Sim {
         self.call(i, &d, Some(&mc), |rn| {
             let _ = rn.step(m);
         });
-        if self.rng.chance(2) {
+        if self.rng.chance(2) && !self.params.lockstep {
             // several ticks (up to an election timeout) before the application gets to the next Ready round
             let k = 1 + self.rng.below(13);
             for _ in 0..k {
@@ -1390,7 +1481,164 @@ impl Sim {
         self.nodes.len()
     }
 
+    /// C16's global half: a leader and a majority run in lock-step (tick together, exchange every
+    /// message at once, persist at once) while the remaining nodes behave adversarially (arbitrary
+    /// ticks, isolation and rejoin, loss / duplication / reordering of everything they send or
+    /// receive, campaigning, crash and restart).  No leadership transfer is requested.  Monitored
+    /// after every round: the leader still leads the same term and no member of the majority has
+    /// changed its term.
+    fn run_lockstep(&mut self) {
+        let n = self.members();
+        // 1. warm-up: a healthy phase until an effective leader exists and everybody is in its term
+        let mut leader = None;
+        for _ in 0..40 {
+            self.burst();
+            let l = (0..n).find(|&k| self.nodes[k].rn.as_ref().map_or(false, |r| r.raft.state == StateRole::Leader) && self.effective(k));
+            if let Some(l) = l {
+                let t = self.nodes[l].rn.as_ref().unwrap().raft.term;
+                if (0..n).all(|k| self.nodes[k].rn.as_ref().map_or(false, |r| r.raft.term == t && (k == l || r.raft.leader_id == self.nodes[l].id))) {
+                    leader = Some(l);
+                    break;
+                }
+            }
+        }
+        let Some(l) = leader else {
+            self.stat("lockstep_no_leader");
+            self.p_end("end of run");
+            return;
+        };
+        let t0 = self.nodes[l].rn.as_ref().unwrap().raft.term;
+        let lid = self.nodes[l].id;
+        let voters: Vec<u64> = self.nodes[l].rn.as_ref().unwrap().raft.prs().conf().to_conf_state().get_voters().to_vec();
+        let quorum = voters.len() / 2 + 1;
+        let mut maj: Vec<usize> = vec![l];
+        for k in 0..n {
+            if maj.len() < quorum && k != l && voters.contains(&self.nodes[k].id) {
+                maj.push(k);
+            }
+        }
+        let rest: Vec<usize> = (0..n).filter(|k| !maj.contains(k)).collect();
+        let in_maj = |id: u64, maj: &Vec<usize>, nodes: &Vec<Node>| maj.iter().any(|&k| nodes[k].id == id);
+        self.log(format!("lockstep: leader n{} term {} majority {:?} others {:?}", lid, t0, maj.iter().map(|&k| self.nodes[k].id).collect::<Vec<_>>(), rest.iter().map(|&k| self.nodes[k].id).collect::<Vec<_>>()));
+        self.stat("lockstep_runs");
+        let rounds = self.params.steps / 8;
+        for round in 0..rounds {
+            self.step_no = round;
+            if self.violations.len() >= 6 || self.violations.first().map_or(false, |v| round > v.step + 80) {
+                break;
+            }
+            // 2a. the majority: one tick each, then ready / persist / deliver among themselves to quiescence
+            for &k in &maj {
+                self.call(k, "tick", None, |rn| {
+                    rn.tick();
+                });
+            }
+            for _ in 0..12 {
+                for &k in &maj {
+                    self.process_ready(k);
+                    self.fsync(k);
+                    self.process_ready(k);
+                }
+                let mut any = false;
+                let mut idx = 0;
+                while idx < self.net.len() {
+                    let (f, t) = (self.net[idx].from, self.net[idx].to);
+                    if in_maj(f, &maj, &self.nodes) && in_maj(t, &maj, &self.nodes) {
+                        self.deliver(idx, false);
+                        any = true;
+                    } else {
+                        idx += 1;
+                    }
+                }
+                if !any {
+                    break;
+                }
+            }
+            if self.rng.chance(25) {
+                let p = self.next_payload;
+                self.next_payload += 1;
+                self.call(l, &format!("propose p{}", p), None, |rn| {
+                    let _ = rn.propose(vec![], format!("p{}", p).into_bytes());
+                });
+            }
+            // 2b. the others: adversarial
+            let acts = self.rng.below(10);
+            for _ in 0..acts {
+                let others_msgs: Vec<usize> = (0..self.net.len()).filter(|&x| !(in_maj(self.net[x].from, &maj, &self.nodes) && in_maj(self.net[x].to, &maj, &self.nodes))).collect();
+                let op = self.rng.below(100);
+                match op {
+                    0..=24 if !rest.is_empty() => {
+                        let k = rest[self.rng.below(rest.len() as u64) as usize];
+                        let burst = 1 + self.rng.below(14);
+                        for _ in 0..burst {
+                            self.call(k, "tick", None, |rn| {
+                                rn.tick();
+                            });
+                        }
+                    }
+                    25..=54 if !others_msgs.is_empty() => {
+                        let x = others_msgs[self.rng.below(others_msgs.len() as u64) as usize];
+                        let dup = self.rng.chance(15);
+                        self.deliver(x, dup);
+                    }
+                    55..=64 if !others_msgs.is_empty() => {
+                        let x = others_msgs[self.rng.below(others_msgs.len() as u64) as usize];
+                        self.net.swap_remove(x);
+                        self.stat("dropped");
+                    }
+                    65..=82 if !rest.is_empty() => {
+                        let k = rest[self.rng.below(rest.len() as u64) as usize];
+                        self.process_ready(k);
+                        if self.rng.chance(70) {
+                            self.fsync(k);
+                        }
+                    }
+                    83..=87 if !rest.is_empty() => {
+                        let k = rest[self.rng.below(rest.len() as u64) as usize];
+                        self.crash(k);
+                    }
+                    88..=93 if !rest.is_empty() => {
+                        let k = rest[self.rng.below(rest.len() as u64) as usize];
+                        self.restart(k);
+                    }
+                    94..=97 if !rest.is_empty() => {
+                        let k = rest[self.rng.below(rest.len() as u64) as usize];
+                        self.call(k, "campaign", None, |rn| {
+                            let _ = rn.campaign();
+                        });
+                    }
+                    _ => {}
+                }
+            }
+            // isolation for a while: drop what piles up for / from the others
+            if self.net.len() > 300 {
+                let cut = self.net.len() - 200;
+                self.net.drain(..cut);
+            }
+            self.monitors();
+            // 2c. the monitor
+            for &k in &maj {
+                let Some(r) = self.nodes[k].rn.as_ref().map(|r| &r.raft) else {
+                    self.violate("C16", format!("n{} of the lock-step majority is down", self.nodes[k].id));
+                    continue;
+                };
+                if r.term != t0 {
+                    let (id, t) = (self.nodes[k].id, r.term);
+                    self.violate("C16", format!("n{} of the majority running in lock-step with leader n{} changed its term from {} to {} (round {})", id, lid, t0, t, round));
+                }
+            }
+            let ls = self.nodes[l].rn.as_ref().map(|r| r.raft.state);
+            if ls != Some(StateRole::Leader) {
+                self.violate("C16", format!("leader n{} of term {} stepped down ({:?}) although it exchanged heartbeats with a majority on schedule (round {})", lid, t0, ls, round));
+            }
+        }
+        self.p_end("end of run");
+    }
+
     pub fn run(&mut self) {
+        if self.params.lockstep {
+            return self.run_lockstep();
+        }
         let n_nodes = self.members();
         for s in 0..self.params.steps {
             self.step_no = s;
@@ -1484,7 +1732,237 @@ impl Sim {
             }
             self.monitors();
         }
+        if self.params.stabilise {
+            self.stabilise();
+        }
         self.p_end("end of run");
+    }
+
+    /// one fault-free round of the fair suffix: every running node handles its Ready and persists at
+    /// once, every message is delivered, the application reports lost snapshots, everybody ticks once
+    fn fair_round(&mut self) {
+        let n = self.nodes.len();
+        for _ in 0..6 {
+            for k in 0..n {
+                self.process_ready(k);
+                while !self.nodes[k].pending.is_empty() && self.nodes[k].rn.is_some() {
+                    self.fsync(k);
+                }
+                self.process_ready(k);
+                if self.nodes[k].rn.is_some() {
+                    self.advance_apply(k);
+                }
+            }
+            if self.net.is_empty() {
+                break;
+            }
+            let msgs: Vec<Message> = self.net.drain(..).collect();
+            for m in msgs {
+                self.net.push(m);
+                let k = self.net.len() - 1;
+                self.deliver(k, false);
+            }
+        }
+        // application duty: a snapshot that is not (any longer) on its way is reported as failed
+        for k in 0..n {
+            let Some(r) = self.nodes[k].rn.as_ref().map(|r| &r.raft) else { continue };
+            if r.state != StateRole::Leader {
+                continue;
+            }
+            let stuck: Vec<u64> = r.prs().iter().filter(|(id, p)| p.state == raft::ProgressState::Snapshot && !self.net.iter().any(|m| m.get_msg_type() == MessageType::MsgSnapshot && m.to == **id)).map(|(id, _)| *id).collect();
+            for t in stuck {
+                self.call(k, &format!("report_snapshot {} Failure", t), None, |rn| rn.report_snapshot(t, SnapshotStatus::Failure));
+            }
+        }
+        for k in 0..n {
+            self.call(k, "tick", None, |rn| {
+                rn.tick();
+            });
+        }
+    }
+
+    /// membership can change during the suffix (pending changes get committed): everybody who is a member
+    /// according to some running node's configuration is (re)started
+    fn ensure_members_running(&mut self) {
+        let n = self.nodes.len();
+        let mut want: Vec<u64> = vec![];
+        for k in 0..n {
+            if let Some(r) = self.nodes[k].rn.as_ref() {
+                let c = r.raft.prs().conf().to_conf_state();
+                want.extend(c.get_voters().iter().chain(c.get_voters_outgoing()).chain(c.get_learners()).chain(c.get_learners_next()).cloned());
+            }
+        }
+        for k in 0..n {
+            if want.contains(&self.nodes[k].id) && self.nodes[k].rn.is_none() {
+                self.restart(k);
+            }
+        }
+    }
+
+    /// C10's premise: a majority of each voter set (of every configuration some running node is in) is running
+    fn majorities_running(&self) -> bool {
+        let n = self.nodes.len();
+        let up = |id: u64| (0..n).any(|k| self.nodes[k].id == id && self.nodes[k].rn.is_some());
+        for k in 0..n {
+            if let Some(r) = self.nodes[k].rn.as_ref() {
+                let c = r.raft.prs().conf().to_conf_state();
+                for half in [c.get_voters(), c.get_voters_outgoing()] {
+                    if !half.is_empty() && half.iter().filter(|v| up(**v)).count() < half.len() / 2 + 1 {
+                        return false;
+                    }
+                }
+            }
+        }
+        true
+    }
+
+    /// C10: after the fault prefix, a fair fault-free suffix — crashed members restarted, nodes that are
+    /// no longer members stopped, every message delivered, everybody ticked regularly — must lead,
+    /// within a bounded number of election timeouts, to exactly one leader, converged logs and commit
+    /// indexes, and a new proposal applied on every running member.
+    fn stabilise(&mut self) {
+        if !self.violations.is_empty() || self.p_end_reason == "panic" {
+            return;
+        }
+        let n = self.nodes.len();
+        // membership according to the most advanced durable application state
+        let Some(best) = (0..n).filter(|&k| self.nodes[k].member).max_by_key(|&k| (self.nodes[k].durable.applied.index, self.nodes[k].app.index)) else { return };
+        let cs = if self.nodes[best].app.index >= self.nodes[best].durable.applied.index && self.nodes[best].rn.is_some() { self.nodes[best].app.cs.clone() } else { self.nodes[best].durable.applied.cs.clone() };
+        let members: Vec<u64> = cs.get_voters().iter().chain(cs.get_voters_outgoing()).chain(cs.get_learners()).chain(cs.get_learners_next()).cloned().collect();
+        if cs.get_voters().is_empty() {
+            return;
+        }
+        self.log(format!("STABILISE members {:?}", members));
+        self.stat("stabilise_runs");
+        for k in 0..n {
+            if members.contains(&self.nodes[k].id) {
+                self.restart(k);
+            } else {
+                self.crash(k);
+            }
+        }
+        let election_tick = 6u64;
+        let bound = 60 * 2 * election_tick; // 60 (maximal) election timeouts
+        let running = |s: &Sim| -> Vec<usize> { (0..n).filter(|&k| s.nodes[k].rn.is_some()).collect() };
+        let converged = |s: &Sim| -> Option<usize> {
+            let run = running(s);
+            let leaders: Vec<usize> = run.iter().cloned().filter(|&k| s.nodes[k].rn.as_ref().unwrap().raft.state == StateRole::Leader).collect();
+            if leaders.len() != 1 {
+                return None;
+            }
+            let l = leaders[0];
+            let lr = &s.nodes[l].rn.as_ref().unwrap().raft;
+            let (lt, ll, lc) = (lr.term, lr.raft_log.last_index(), lr.raft_log.committed);
+            if lc != ll || lr.prs().conf().to_conf_state().get_voters_outgoing().len() > 0 {
+                return None;
+            }
+            let c = lr.prs().conf().to_conf_state();
+            let mem: Vec<u64> = c.get_voters().iter().chain(c.get_learners()).cloned().collect();
+            for &k in &run {
+                if !mem.contains(&s.nodes[k].id) {
+                    continue; // no longer a member: nothing is owed to it
+                }
+                let r = &s.nodes[k].rn.as_ref().unwrap().raft;
+                if r.term != lt || r.raft_log.last_index() != ll || r.raft_log.committed != lc || s.nodes[k].app.index != lc {
+                    return None;
+                }
+            }
+            Some(l)
+        };
+        let mut leader = None;
+        let mut rounds = 0;
+        while rounds < bound {
+            self.fair_round();
+            self.ensure_members_running();
+            rounds += 1;
+            if !self.violations.is_empty() {
+                return;
+            }
+            if let Some(l) = converged(self) {
+                leader = Some(l);
+                break;
+            }
+        }
+        let Some(l) = leader else {
+            if !self.majorities_running() {
+                self.stat("stabilise_premise_unmet");
+                return;
+            }
+            let desc: Vec<String> = running(self).iter().map(|&k| {
+                let r = &self.nodes[k].rn.as_ref().unwrap().raft;
+                let prog: Vec<String> = if r.state == StateRole::Leader {
+                    r.prs().iter().map(|(id, p)| format!("{}:{:?}:m{}:n{}:{}:ps{}:pr{}", id, p.state, p.matched, p.next_idx, if p.paused { "paused" } else { "-" }, p.pending_snapshot, p.pending_request_snapshot)).collect()
+                } else { vec![] };
+                format!("n{}:{:?} t{} last{} c{} a{} rq{} {}", self.nodes[k].id, r.state, r.term, r.raft_log.last_index(), r.raft_log.committed, self.nodes[k].app.index, r.pending_request_snapshot, prog.join(","))
+            }).collect();
+            // diagnosis: a follower that waits for a requested snapshot which the leader cannot produce
+            // because nothing can be committed without that follower (finding F15)
+            let wedged = running(self).iter().any(|&k| {
+                let r = &self.nodes[k].rn.as_ref().unwrap().raft;
+                r.state != StateRole::Leader && r.pending_request_snapshot != 0 && running(self).iter().all(|&j| self.nodes[j].app.index < r.pending_request_snapshot)
+            });
+            let head = if wedged { "wedged by a pending snapshot request (a follower refuses appends until it gets a snapshot at an index that cannot be committed without it)" } else { "no convergence" };
+            self.violate("C10", format!("{} after {} fault-free rounds (60 election timeouts) with all members {:?} running: {}", head, bound, members, desc.join(" ")));
+            return;
+        };
+        self.stat("stabilise_converged");
+        *self.stats.entry("stabilise_rounds".into()).or_insert(0) += rounds;
+        // a new proposal must be applied on every running member (a pending transfer may refuse
+        // proposals for at most one election timeout)
+        let p = self.next_payload;
+        self.next_payload += 1;
+        let mut target = 0;
+        for _ in 0..(3 * 2 * election_tick) {
+            let Some(l) = converged(self) else { self.fair_round(); self.ensure_members_running(); continue };
+            let before = self.nodes[l].rn.as_ref().unwrap().raft.raft_log.last_index();
+            self.call(l, &format!("propose p{}", p), None, |rn| {
+                let _ = rn.propose(vec![], format!("p{}", p).into_bytes());
+            });
+            let after = self.nodes[l].rn.as_ref().map_or(0, |r| r.raft.raft_log.last_index());
+            if after > before {
+                target = before + 1;
+                break;
+            }
+            self.fair_round();
+            if !self.violations.is_empty() {
+                return;
+            }
+        }
+        if target == 0 {
+            if !self.majorities_running() {
+                self.stat("stabilise_premise_unmet");
+                return;
+            }
+            self.violate("C10", format!("no proposal was accepted within 3 election timeouts after stabilisation (leader n{})", self.nodes[l].id));
+            return;
+        }
+        let mut done = false;
+        for _ in 0..(6 * 2 * election_tick) {
+            self.fair_round();
+            self.ensure_members_running();
+            if !self.violations.is_empty() {
+                return;
+            }
+            // the members now: the leader's configuration (the proposal phase may follow a membership change)
+            let Some(lk) = running(self).into_iter().find(|&k| self.nodes[k].rn.as_ref().unwrap().raft.state == StateRole::Leader) else { continue };
+            let c = self.nodes[lk].rn.as_ref().unwrap().raft.prs().conf().to_conf_state();
+            let mem: Vec<u64> = c.get_voters().iter().chain(c.get_voters_outgoing()).chain(c.get_learners()).chain(c.get_learners_next()).cloned().collect();
+            let run: Vec<usize> = running(self).into_iter().filter(|&k| mem.contains(&self.nodes[k].id)).collect();
+            if !run.is_empty() && run.iter().all(|&k| self.nodes[k].app.index >= target) {
+                let i0 = run.iter().map(|&k| self.nodes[k].app.index).min().unwrap();
+                let _ = i0;
+                done = true;
+                break;
+            }
+        }
+        if !done {
+            if !self.majorities_running() {
+                self.stat("stabilise_premise_unmet");
+                return;
+            }
+            let desc: Vec<String> = running(self).iter().map(|&k| format!("n{}:a{}", self.nodes[k].id, self.nodes[k].app.index)).collect();
+            self.violate("C10", format!("a proposal made after stabilisation (index {}) was not applied on every running member within 6 election timeouts: {}", target, desc.join(" ")));
+        }
     }
 
     /// a healthy phase: a few rounds of ready / deliver-everything / tick, so that leaders get
